@@ -117,7 +117,11 @@ def gen_case(rng, kind):
     else:
         spec = []
         for _ in range(int(rng.integers(0, 5))):
-            spec.append((int(rng.choice([0, 0, 1, 2, 3, 5])), str(rng.choice(["Fast", "All"])), tw and has_trace, tw))
+            if rng.random() < 0.5:
+                spec.append((int(rng.choice([0, 0, 1, 2, 3, 5])), str(rng.choice(["Fast", "All"])), tw and has_trace, tw))
+            else:   # a user-defined stager may trace a stage without recording its statistics, and vice versa
+                # (only when trace_warm_up is set: the arrays are sized for warm-up rows only then)
+                spec.append((int(rng.choice([0, 1, 2, 3, 5])), str(rng.choice(["Fast", "All"])), bool(tw and has_trace and rng.random() < 0.6), bool(tw and rng.random() < 0.5)))
         nm = int(rng.choice([0, 1, 2, 4]))
         if nm or rng.random() < 0.3:
             spec.append((nm, "NoAd", has_trace, True))
